@@ -505,3 +505,52 @@ def gen_arms():
 
 if __name__ == "__main__":
     print(gen_arms())
+
+
+def gen_tokenizer_arms():
+    """tokenizer.rs, the `match c` of the first pass: the symbol arms (character, optional second character, length, variant)
+    and the order of the arms"""
+    from extract import TOK
+    tz = strip_hooks(strip_comments(strip_tests(read("src/tokenizer.rs"))))
+    # bracket characters written as character literals must not confuse the bracket matcher
+    BR = {"'{'": "'\u0001'", "'}'": "'\u0002'", "'('": "'\u0003'", "')'": "'\u0004'"}
+    for k, v in BR.items(): tz = tz.replace(k, v)
+    UNBR = {"\u0001": "{", "\u0002": "}", "\u0003": "(", "\u0004": ")"}
+    body = fn_body(tz, "tokenize")
+    m = re.search(r"\bmatch\s+c\s*\{", body)
+    if not m: fail("arms: tokenizer: no `match c`")
+    blk, _ = match_block(body, m.start())
+    rows, order = [], []
+    for pat, abody in split_arms(blk, "tokenize"):
+        p = re.sub(r"\s+", " ", pat).strip()
+        ch = re.fullmatch(r"'(\\?.)'", p)
+        if ch and ch.group(1) not in ("\\n", "#"):
+            c = UNBR.get(ch.group(1), ch.group(1))
+            order.append("sym")
+            cur = None
+            for t in re.finditer(r"Some\(&\(_, '(.)'\)\)|\belse\b|\b_\s*=>|end:\s*i\s*\+\s*(\d+)\s*,?\s*\}\s*,\s*variant:\s*Variant::(\w+(?:\([^)]*\))?)", abody):
+                if t.group(1): cur = (t.group(1), t.end())
+                elif t.group(2):
+                    v = t.group(3)
+                    if v not in TOK: fail(f"arms: tokenizer: unknown variant {v}")
+                    if cur is not None:
+                        if "iter.next()" not in abody[cur[1]:t.start()]: fail(f"arms: tokenizer: the arm of '{c}' does not consume the second character of {v}")
+                        rows.append((c, cur[0], int(t.group(2)), TOK[v]))
+                    else:
+                        rows.append((c, None, int(t.group(2)), TOK[v]))
+                else: cur = None
+        else:
+            if p.startswith("_ if"):
+                guard = p[4:].strip()
+                guard = " || ".join(sorted(x.strip() for x in guard.split("||")))
+                order.append("if " + guard)
+            else:
+                order.append(p)
+    out = ["import GramModel.Token", "", "/-! GENERATED by extract/arms.py from /repo/src/tokenizer.rs — do not edit. -/", "", "namespace Generated", "",
+           "/-- the symbol arms of `tokenize`: (first character, second character if the arm peeks, byte length of the token, kind) -/",
+           "def symbolArms : List (Char × Option Char × Nat × TokKind) := [",
+           ",\n".join("  ('%s', %s, %d, %s)" % (c, ("some '%s'" % d) if d else "none", n, k) for c, d, n, k in rows), "]", "",
+           "/-- the arms of `match c` in order (`sym` = a symbol arm; guards with their `||` operands sorted) -/",
+           "def scanArmOrder : List String := [" + ", ".join('"%s"' % o.replace("\\", "\\\\").replace('"', '\\"') for o in order) + "]", "",
+           "end Generated", ""]
+    return "\n".join(out)
